@@ -187,7 +187,7 @@ PROPS['C05'] = {
                'request_transaction(t).is_some() <=> t outstanding; cancel sets exactly the two flags of that transaction',
                'StunRequestState::poll: Cancelled iff flags, TimedOut/WaitUntil/SendData per schedule; nothing but (timeout_i, last_send_time) changes',
                'theorem_exactly_once / lemma_not_outstanding_stays: between two completions of an id there is a successful send of it; while not outstanding no transmission, delivery or completion for it occurs'],
-    'bounded': ['StunAgent::poll (for .. in values_mut(): no Verus spec for the BTreeMap iterator) turns a per-request verdict into removal: BX, step by step against the abstract agent - EXHAUSTIVELY for every call history of length <= 4 (quick) / <= 5 (thorough, UDP and TCP) over a 12-operation alphabet (two transactions, polls early/exact/late, three kinds of response, cancel, cancel_retransmissions, configure, set credentials), plus random histories of 3..14 (every 50th: 200) operations over the full alphabet'],
+    'bounded': ['StunAgent::poll (for .. in values_mut(): no Verus spec for the BTreeMap iterator) turns a per-request verdict into removal: BX, step by step against the abstract agent - EXHAUSTIVELY for every call history of length <= 4 (quick) / <= 5 (thorough, UDP and TCP) over a 13-operation alphabet (two transactions, polls early/exact/late, three kinds of response, cancel, cancel_retransmissions, configure of either transaction, set credentials), plus random histories of 3..14 (every 50th: 200) operations over the full alphabet'],
     'trusted': _AGENT_TRUST + _KX_TRUST,
 }
 PROPS['C06'] = {
